@@ -136,7 +136,7 @@ func genSemDB(r *h.Rng, streams []semStream, c mctx, d int64) semDB {
 	return db
 }
 
-func joinOrDash(xs []string) string {
+func c08JoinOrDash(xs []string) string {
 	if len(xs) == 0 {
 		return "-"
 	}
@@ -144,7 +144,7 @@ func joinOrDash(xs []string) string {
 }
 
 func (d semDB) ser() string {
-	return joinOrDash(d.Gin) + " " + joinOrDash(d.TS) + " " + joinOrDash(d.Samples)
+	return c08JoinOrDash(d.Gin) + " " + c08JoinOrDash(d.TS) + " " + c08JoinOrDash(d.Samples)
 }
 
 // ---- simple queries over that universe
